@@ -547,6 +547,16 @@ pub fn template_sources(seed: u64, i: u64) -> Vec<String> {
             "Mv DEFINITIONS AUTOMATIC TAGS ::= BEGIN\nColour ::= ENUMERATED { red, green }\nSpeed ::= INTEGER (0..400)\nmax-speed Speed ::= 300\nEND\n".to_string(),
         ];
     }
+    if i % 8 == 1 {
+        // automatic tagging decided per type: a tagged component *inside* an anonymous nested type does not switch it off
+        // for the enclosing type (whose untagged OPTIONAL neighbours of one type rely on it), and the other way round
+        let k = i / 8;
+        let kw = if k % 2 == 0 { "SEQUENCE" } else { "SET" };
+        let (n1, n2) = [(3, 4), (0, 1), (7, 0)][(k / 2 % 3) as usize];
+        return vec![format!(
+            "Mn DEFINITIONS AUTOMATIC TAGS ::= BEGIN\nOuter ::= {kw} {{ inner {kw} {{ a [{n1}] INTEGER, b [{n2}] BOOLEAN }}, x INTEGER OPTIONAL, y INTEGER OPTIONAL }}\nOuterCh ::= CHOICE {{ inner CHOICE {{ a [{n1}] INTEGER, b [{n2}] INTEGER }}, x INTEGER, y INTEGER }}\nTaggedOuter ::= {kw} {{ inner [{n1}] {kw} {{ a INTEGER OPTIONAL, b INTEGER OPTIONAL }}, x [{n2}] BOOLEAN }}\nEND\n"
+        )];
+    }
     if i % 8 == 7 {
         // type bodies copied across modules with differing tagging defaults (COMPONENTS OF, imported parameterized type)
         let k = i / 8;
